@@ -199,8 +199,9 @@ PROPS = {
         assumptions=["domain of the property"],
     ),
     "C03": dict(
-        runs=[dict(harness="codec", name="rt_metrics", args=lambda tier, seed, casedir, coq: ["rt_metrics", "--n", str(q(tier, 90, 3000)), "--seed", str(seed)], timeout=3000, coq_timeout=3000)],
-        rule="as C01 for metrics: all metric types incl. empty, data points with zero counts, all-zero and empty bucket lists / bounds, zero offsets and scales, present-but-zero and absent sum/min/max, int vs double vs unset "
+        runs=[dict(harness="codec", name="gen", phase="gen", args=lambda tier, seed, casedir, coq: ["gen", "--out", casedir]),
+              dict(harness="codec", name="rt_metrics", args=lambda tier, seed, casedir, coq: ["rt_metrics", "--n", str(q(tier, 90, 3000)), "--seed", str(seed)], timeout=3000, coq_timeout=3000)],
+        rule="gen: for every Append* method of the optional-column wrappers (common/schema/builder) the condition under which a write to an absent column requests the column, extracted from the current source (must be in the baseline the wrapper model assumes); as C01 for metrics: all metric types incl. empty, data points with zero counts, all-zero and empty bucket lists / bounds, zero offsets and scales, present-but-zero and absent sum/min/max, int vs double vs unset "
              "values, quantiles, exemplars with and without attributes; the equivalence predicate (incl. presence of optional values) evaluated in Coq on real input vs output",
         trusted_base=["modelled, not verified: arrow-go (builders, IPC transport, dictionaries), zstd, the CBOR byte codec (nested values are read back through common.Deserialize)",
                       "the scalar columns of the main tables are not modelled cell by cell (tie: equivalence predicate on real I/O)",
